@@ -218,3 +218,32 @@ for _u in _v.UNITS:
                               f"&& (forall|s: int| #[trigger] eval_st(r->Ok_0, s) == arrayrepeat_st({_AR}, s))"))
         _u["ensures"].append(("arrayrepeat.fold.early_error_only_if_every_evaluation_fails", ["C04"],
                               f"r is Err ==> (forall|s: int| #[trigger] arrayrepeat_res({_AR}, s) is Err)"))
+
+# ---------------------------------------------------------------- (a, b) := e : recreate ----------------
+_DT_EXTRA = """
+// DestructTuple::insert_local_variables (zip over idents and elements / types: outside Verus) - assumed: the environment
+// after binding the idents of `d` is a function of the environment before and of `d` itself
+pub uninterp spec fn lv_destruct(s: int, d: DestructTuple) -> int;
+impl DestructTuple {
+    #[verifier::external_body]
+    pub fn insert_local_variables(&self, local_variables: &mut LocalVariables)
+        ensures final(local_variables).st@ == lv_destruct(old(local_variables).st@, *self)
+    { unimplemented!() }
+}
+impl vstd::std_specs::convert::FromSpecImpl<DestructTuple> for Instruction {
+    open spec fn obeys_from_spec() -> bool { true }
+    open spec fn from_spec(v: DestructTuple) -> Instruction { Instruction::DestructTuple(Arc::new(v)) }
+}
+impl From<DestructTuple> for Instruction { fn from(v: DestructTuple) -> (r: Instruction) { Instruction::DestructTuple(Arc::new(v)) } }
+"""
+RD = f"rec_res(self.instruction.instruction, {RS0})"
+RD_ST = f"rec_st(self.instruction.instruction, {RS0})"
+unit(id="destructtuple.recreate", src="src/instruction/destruct_tuple.rs", path=[("impl", "Recreate for DestructTuple"), ("fn", "recreate")],
+     impl="DestructTuple", stubs=["iws.recreate"], extra=_DT_EXTRA,
+     ensures=[
+         ("destructtuple.recreate.value_is_folded_before_the_names_are_rebound", ["C04"],
+          f"(match {RD} {{ Err(e) => r == Err::<Instruction, ExecError>(e) && {RS9} == {RD_ST}, "
+          f"Ok(v) => r is Ok && r->Ok_0 is DestructTuple && r->Ok_0->DestructTuple_0.idents == self.idents "
+          f"&& r->Ok_0->DestructTuple_0.instruction.instruction == v "
+          f"&& {RS9} == lv_destruct({RD_ST}, *r->Ok_0->DestructTuple_0) }})"),
+     ])
